@@ -699,6 +699,13 @@ func main() {
 		fragStatus[k] = v
 	}
 	// end trans4
+	// trans6: trie/trie.go -> Gen/Trie.lean (frag_trie.go)
+	trieLean, trieStatus := translateTrie()
+	writeIfChanged(filepath.Join(outDir, "Trie.lean"), trieLean)
+	for k, v := range trieStatus {
+		fragStatus[k] = v
+	}
+	// end trans6
 	// trans7: After, Before, Once, Retry, RetryWithDelay of func.go + cache.Item.Val (frag_func.go) -> Gen/FuncWrap.lean
 	fwLean, fwStatus := translateFuncWrap(dir)
 	writeIfChanged(filepath.Join(outDir, "FuncWrap.lean"), fwLean)
